@@ -160,7 +160,7 @@ func runSeed(pr *Property, sm seedMeta, repo, verif string) variantOutcome {
 		return out
 	}
 	c2 := &Ctx{P: p2, Tier: "thorough", memo: map[string]any{}}
-	n := 0
+	n, u := 0, 0
 	for _, id := range pr.Rules {
 		for _, in := range runRule(c2, id).Instances {
 			if in.Verdict == Violation {
@@ -169,11 +169,20 @@ func runSeed(pr *Property, sm seedMeta, repo, verif string) variantOutcome {
 					out.Rules = append(out.Rules, id)
 				}
 			}
+			if in.Verdict == Undecided {
+				u++
+				if !inList(out.Rules, id+"(undecided)") {
+					out.Rules = append(out.Rules, id+"(undecided)")
+				}
+			}
 		}
 	}
-	if n > 0 {
+	switch {
+	case n > 0:
 		out.Outcome = "killed"
-	} else {
+	case u > 0:
+		out.Outcome = "undecided" // the check fails closed (exit 2) without naming a violation
+	default:
 		out.Outcome = "missed"
 	}
 	return out
